@@ -1,7 +1,7 @@
-(** C10: export / import fidelity, the compress codec, and exactly when the importers panic.
+(** C10: export / import fidelity, the compress codec, and total importers.
     Statements are restated in full; models in ExportImport.v, proofs in ExportImportFacts.v.
-    REFUTED: "the importer never panics" -- see C10_importer_panics_refuted and
-    C10_compress_importer_panics_refuted for the concrete hostile streams. *)
+    The hostile streams that panicked the importers before the fixes f7b1f2c / a7a4939 are
+    kept as Examples (C10_example_former_panics): they are errors now. *)
 From IAVL Require Import Bytes Varint Sha256 Tree VMap TreeFacts ExportImport ExportImportFacts.
 Local Open Scope Z_scope.
 
@@ -103,71 +103,53 @@ Theorem C10_compress_import_roundtrip :
 Proof. exact compress_import_roundtrip. Qed.
 Print Assumptions C10_compress_import_roundtrip.
 
-(** ** 4. Panics: refuted totality with witnesses, and the exact characterisation *)
-Theorem C10_importer_panics_refuted :
-  exists v stream, forall H : bytes -> bytes, imp_run H v stream = IPanic.
-Proof. exact importer_panics_refuted. Qed.
-Print Assumptions C10_importer_panics_refuted.
+(** ** 4. The importers are total: no stream whatsoever makes them panic
+    (every slice index / stack access of the models sits behind an explicit bounds check
+    whose failure branch is [IPanic]; the guards of the code make them unreachable) *)
+Theorem C10_importer_total :
+  forall (H : bytes -> bytes) (v : Z) (stream : list (option enode)),
+    0 <= v < max_nonces_len -> imp_run H v stream <> IPanic.
+Proof. exact importer_total. Qed.
+Print Assumptions C10_importer_total.
 
-Theorem C10_importer_panics_witnesses :
-  forall H : bytes -> bytes,
-    imp_run H 1 [Some (ENode (Some [107%N]) (Some [118%N]) (-1) 0)] = IPanic /\
-    imp_run H 1 [Some (ENode (Some [97%N]) (Some [1%N]) 1 0);
-                 Some (ENode (Some [98%N]) (Some [2%N]) 1 0);
-                 Some (ENode (Some [98%N]) None (-9223372036854775808) 1)] = IPanic /\
-    imp_run H 9223372036854775807 [] = IPanic.
+Theorem C10_compress_importer_total :
+  forall (H : bytes -> bytes) (v : Z) (stream : list (option cnode)),
+    0 <= v < max_nonces_len -> cimp_run H v stream <> IPanic.
+Proof. exact compress_importer_total. Qed.
+Print Assumptions C10_compress_importer_total.
+
+Theorem C10_decompress_total : forall l : list cnode, decompress l <> IPanic.
+Proof. exact decompress_total. Qed.
+Print Assumptions C10_decompress_total.
+
+Theorem C10_importer_steps_total :
+  forall (H : bytes -> bytes) (st : imp_state) (on : option enode) (cs : cimp_state)
+         (oc : option cnode),
+    imp_add H st on <> IPanic /\ imp_commit H st <> IPanic /\ cimp_add cs oc <> IPanic.
 Proof.
-  intros H.
-  exact (conj (eq_refl : imp_run H 1 hostile_negative_version = IPanic)
-          (conj (importer_panics_inner_refuted H) (importer_new_panics_refuted H))).
+  intros H st on cs oc.
+  exact (conj (imp_add_no_panic H st on) (conj (imp_commit_no_panic H st) (cimp_add_no_panic cs oc))).
 Qed.
-Print Assumptions C10_importer_panics_witnesses.
+Print Assumptions C10_importer_steps_total.
 
-Theorem C10_importer_panic_characterised :
+(** Documented limitations, outside the quantifiers above: the import version is the
+    caller's trusted parameter ([make([]uint32, version+1)] in newImporter), and the
+    compress EXPORTER trusts the exporter it wraps. *)
+Theorem C10_importer_new_panics_refuted :
+  forall H : bytes -> bytes, imp_run H 9223372036854775807 [] = IPanic.
+Proof. exact importer_new_panics_refuted. Qed.
+Print Assumptions C10_importer_new_panics_refuted.
+
+Theorem C10_importer_panic_only_new :
   forall (H : bytes -> bytes) (v : Z) (stream : list (option enode)),
-    imp_run H v stream = IPanic ->
-    max_nonces_len <= v \/ exists n, In (Some n) stream /\ e_version n < 0.
-Proof. exact importer_panic_characterised. Qed.
-Print Assumptions C10_importer_panic_characterised.
-
-Theorem C10_importer_total_nonneg :
-  forall (H : bytes -> bytes) (v : Z) (stream : list (option enode)),
-    v < max_nonces_len ->
-    (forall n, In (Some n) stream -> 0 <= e_version n) ->
-    imp_run H v stream <> IPanic.
-Proof. exact importer_total_nonneg. Qed.
-Print Assumptions C10_importer_total_nonneg.
-
-Theorem C10_decompress_panics_refuted :
-  decompress [ENode None None 0 1] = IPanic /\
-  decompress [ENode (Some [0%N; 97%N]) (Some [1%N]) 1 0; ENode None None 0 1] = IPanic /\
-  decompress [ENode (Some [5%N; 97%N]) (Some [1%N]) 1 0] = IPanic.
-Proof. exact decompress_panics_refuted. Qed.
-Print Assumptions C10_decompress_panics_refuted.
-
-Theorem C10_compress_importer_panics_refuted :
-  forall H : bytes -> bytes,
-    cimp_run H 1 (map Some hostile_compress_inner_first) = IPanic /\
-    cimp_run H 1 (map Some hostile_compress_one_leaf) = IPanic /\
-    cimp_run H 1 (map Some hostile_compress_shared) = IPanic /\
-    cimp_run H 1 [None] = IPanic.
-Proof. exact compress_importer_panics_refuted. Qed.
-Print Assumptions C10_compress_importer_panics_refuted.
+    imp_run H v stream = IPanic -> max_nonces_len <= v.
+Proof. exact importer_panic_only_new. Qed.
+Print Assumptions C10_importer_panic_only_new.
 
 Theorem C10_compress_exporter_panics_refuted :
   compress [ENode (Some [97%N]) None 1 1] = IPanic.
 Proof. exact compress_panics_refuted. Qed.
 Print Assumptions C10_compress_exporter_panics_refuted.
-
-Theorem C10_cimp_step_panic_characterised :
-  forall (st : cimp_state) (n : cnode),
-    cimp_step st n = IPanic ->
-    (e_height n <> 0 /\ (length (ci_minkeys st) < 1 \/ length (ci_vers st) < 2)%nat) \/
-    (e_height n = 0 /\ exists shared c,
-        uvarint_dec (key_bytes (e_key n)) = Some (shared, c) /\
-        (N.of_nat (length (ci_last st)) < shared)%N).
-Proof. exact cimp_step_panic_characterised. Qed.
-Print Assumptions C10_cimp_step_panic_characterised.
 
 (** ** 5. Errors expose nothing *)
 Theorem C10_import_error_no_effect :
@@ -234,17 +216,26 @@ Example C10_example_hyps :
   map e_version (export (Some C10_t2)) = [1; 1; 2; 1; 2; 2; 2; 2; 2; 2; 2].
 Proof. vm_compute. intuition (try discriminate; auto). Qed.
 
+Definition C10_imported : node :=
+  match imp_run sha256 3 (map Some (export (Some C10_t2))) with
+  | IOk (Some t) => t
+  | _ => Leaf [] [] new_meta
+  end.
+
 Example C10_example_roundtrip :
-  exists t',
-    imp_run sha256 3 (map Some (export (Some C10_t2))) = IOk (Some t') /\
-    shape_eq t' C10_t2 /\
-    pure_hash sha256 3 t' = pure_hash sha256 3 C10_t2 /\
-    hs (nmeta t') = hs (nmeta C10_t2) /\
-    elems t' = elems C10_t2 /\ nonce (nmeta t') = 1 /\ ver (nmeta t') = 2.
-Proof. vm_compute. eexists. intuition reflexivity. Qed.
+  imp_run sha256 3 (map Some (export (Some C10_t2))) = IOk (Some C10_imported) /\
+  shape_eq C10_imported C10_t2 /\
+  pure_hash sha256 3 C10_imported = pure_hash sha256 3 C10_t2 /\
+  hs (nmeta C10_imported) = hs (nmeta C10_t2) /\
+  elems C10_imported = elems C10_t2 /\
+  nonce (nmeta C10_imported) = 1 /\ ver (nmeta C10_imported) = 2.
+Proof. vm_compute. intuition reflexivity. Qed.
+
+Definition C10_cs : list cnode :=
+  match compress (export (Some C10_t2)) with IOk cs => cs | _ => [] end.
 
 Example C10_example_compress :
-  exists cs,
+  let cs := C10_cs in
     compress (export (Some C10_t2)) = IOk cs /\
     decompress cs = IOk (export (Some C10_t2)) /\
     (* inner keys elided, leaf keys delta-encoded ([5;2;7] after [5;1] shares one byte) *)
@@ -253,8 +244,8 @@ Example C10_example_compress :
        Some [0%N; 5%N; 1%N]; Some [1%N; 2%N; 7%N]; None; None; None] /\
     (* inner versions are deltas against the larger child version *)
     map e_version cs = [1; 1; 1; 1; 2; 0; 2; 2; 0; 0; 0] /\
-    cimp_run sha256 3 (map Some cs) = imp_run sha256 3 (map Some (export (Some C10_t2))).
-Proof. vm_compute. eexists. intuition reflexivity. Qed.
+    cimp_run sha256 3 (map Some cs) = IOk (Some C10_imported).
+Proof. vm_compute. intuition reflexivity. Qed.
 
 (** the hostile streams end in errors, not roots, when they do not panic *)
 Example C10_example_errors :
@@ -266,4 +257,22 @@ Example C10_example_errors :
   imp_run sha256 0 [Some (ENode (Some [97%N]) (Some [1%N]) 0 0)] = IErr /\
   imp_run sha256 (-1) [] = IErr /\
   decompress [ENode None (Some [1%N]) 1 0] = IErr.
+Proof. vm_compute. intuition reflexivity. Qed.
+
+(** the streams that panicked the importers before the guards were added *)
+Example C10_example_former_panics :
+  (* negative node version, as a leaf and as an inner node above two written children *)
+  imp_run sha256 1 [Some (ENode (Some [107%N]) (Some [118%N]) (-1) 0)] = IErr /\
+  imp_run sha256 1 [Some (ENode (Some [97%N]) (Some [1%N]) 1 0);
+                    Some (ENode (Some [98%N]) (Some [2%N]) 1 0);
+                    Some (ENode (Some [98%N]) None (-9223372036854775808) 1)] = IErr /\
+  (* compress importer: inner node first; one leaf then an inner node; shared prefix
+     longer than the previous key; nil node *)
+  cimp_run sha256 1 [Some (ENode None None 0 1)] = IErr /\
+  cimp_run sha256 1 [Some (ENode (Some [0%N; 97%N]) (Some [1%N]) 1 0);
+                     Some (ENode None None 0 1)] = IErr /\
+  cimp_run sha256 1 [Some (ENode (Some [5%N; 97%N]) (Some [1%N]) 1 0)] = IErr /\
+  cimp_run sha256 1 [None] = IErr /\
+  decompress [ENode None None 0 1] = IErr /\
+  decompress [ENode (Some [5%N; 97%N]) (Some [1%N]) 1 0] = IErr.
 Proof. vm_compute. intuition reflexivity. Qed.
